@@ -147,6 +147,16 @@ func (o *Store) split(t *Collection, n *nodeLoc, s []byte,
 
 	c := t.compare(s, nItem.Key)
 	if c == 0 {
+		// Load both children before their slots are copied (the other arms do
+		// so through numInfo): a copy of an unloaded slot is loaded separately
+		// by each version, and the node a reader of the old version loads into
+		// its own copy is then never reclaimed.
+		if _, err := nNode.left.read(o); err != nil {
+			return &emptyNodeLoc, &emptyNodeLoc, &emptyNodeLoc, err
+		}
+		if _, err := nNode.right.read(o); err != nil {
+			return &emptyNodeLoc, &emptyNodeLoc, &emptyNodeLoc, err
+		}
 		left := t.mkNodeLoc(nil).Copy(&nNode.left)
 		right := t.mkNodeLoc(nil).Copy(&nNode.right)
 		middle := t.mkNodeLoc(nil).Copy(n)
